@@ -3,7 +3,7 @@
 From Coq Require Import Extraction ExtrOcamlBasic.
 From Coq Require Import List NArith.
 From Base Require Import Bytes.
-From Fw Require Import Model Spec World ScopeDefs GenScope ScopeModel.
+From Fw Require Import Model Spec World.
 Extraction Language OCaml.
 Extraction "fw_model.ml"
   step init wstep winit dispatch_data with_faces get_face name_eqb is_prefix dnl_has up_token
@@ -11,5 +11,4 @@ Extraction "fw_model.ml"
   pend_interest pend_data pend_tick c01_data_only_pending c01_data_complete c01_cs_reply_ok sat_rec select_hint data_effective
   c02_outs_ok c02_drop_ok c02_suppress_ok c02_strategy_ok c02_forward_ok c02_nodup_ok c02_must_drop c02_suppressed c02_cached c02_usable c02_candidates
   strat_of c02_drop_reason suppression data_token be_val
-  transport_scope spec_local
   N.add N.mul N.sub N.of_nat N.to_nat N.eqb N.ltb N.leb N.div N.modulo N.compare.
